@@ -22,13 +22,14 @@ VARIABLES obj, hist
 (* ----- argument alphabets: valid, boundary and invalid ------------------- *)
 UKeys   == { B("ca"), B("hc"), B("1a"), B("CA"), B("c1"), B("c"), B("cal"), B("") }
 UVals   == { <<>>, <<B("buddhist")>>, <<B("true")>>, <<B("islamic"), B("civil")>>, <<B("Gregory")>>,
-             <<B("ab")>>, <<B("toolongxx")>>, <<B("a*c")>>, <<B("islamic"), B("true")>>, <<B("gregory"), B("x")>> }
+             <<B("ab")>>, <<B("toolongxx")>>, <<B("a*c")>>, <<B("islamic"), B("true")>>, <<B("gregory"), B("x")>>,
+             <<B("True")>>, <<B("islamic"), B("TRUE")>> }
 Attrs   == { B("foo"), B("bar"), B("FOO"), B("abcdefgh"), B("ab"), B("abcdefghi"), B("fo-o"), B(""), B("zzz") }
 TLangs  == { B("en"), B("en-US"), B("EN-latn-us-valencia"), B("und"), B("x"), B("en-"), B(""), B("de-1996-bavarian"),
              B("abcdefgh-Latn"), B("abcde-419") }
 TKeys   == { B("h0"), B("k0"), B("H0"), B("0h"), B("h"), B("hh"), B("") }
 TVals   == { <<>>, <<B("hybrid")>>, <<B("true")>>, <<B("googlevk"), B("extended")>>, <<B("ab")>>,
-             <<B("Windows")>>, <<B("a"), B("b")>>, <<B("hybrid"), B("!")>> }
+             <<B("Windows")>>, <<B("a"), B("b")>>, <<B("hybrid"), B("!")>>, <<B("TRUE")>>, <<B("hybrid"), B("True")>> }
 Tags    == { B("a"), B("b"), B("c"), B("d"), B("D"), B("abcdefgh"), B("abcdefghi"), B(""), B("a*") }
 Langs   == { B("en"), B("und"), B("EN"), B("abcd"), B("e"), B("abcdefgh"), B("sr") }
 Scripts == { B("Latn"), B("latn"), B("Lat"), B("Cyrl"), B("1234") }
